@@ -531,6 +531,36 @@ func opC07Forest(raw json.RawMessage, o *Out) {
 			}
 		}
 	}
+	// the same polygon assembled from oriented loops: holes given clockwise
+	{
+		ol := make([]*s2.Loop, len(c.Loops))
+		oidx := map[*s2.Loop]int{}
+		for k, vs := range c.Loops {
+			ol[k] = s2.LoopFromPoints(c07Pts(c.F, c.Gf, vs, c.Want[k].Hole))
+			oidx[ol[k]] = k
+		}
+		po := s2.PolygonFromOrientedLoops(append([]*s2.Loop(nil), ol...))
+		if po.NumLoops() != len(ol) {
+			o.Fail("c07forest/oriented/numloops", "PolygonFromOrientedLoops: NumLoops=%d want %d; %s", po.NumLoops(), len(ol), desc)
+		} else {
+			for k := 0; k < po.NumLoops(); k++ {
+				l := po.Loop(k)
+				i, ok := oidx[l]
+				if !ok {
+					o.Fail("c07forest/oriented/loops-permuted", "loop %d is not an input loop; %s", k, desc)
+					break
+				}
+				w := c.Want[i]
+				if d := s2.VerifLoopDepth(l); d != w.Depth || l.IsHole() != w.Hole {
+					o.Fail("c07forest/oriented/depth", "PolygonFromOrientedLoops input loop %d: depth %d hole %v, model %d %v; %s", i, d, l.IsHole(), w.Depth, w.Hole, desc)
+				}
+				ctr := emb.FromFaceIJ(c.F, c.Gf, w.Wit[0], w.Wit[1]).Point()
+				if g := po.ContainsPoint(ctr); g != w.Inside {
+					o.Fail("c07forest/oriented/region", "PolygonFromOrientedLoops: ContainsPoint(witness cell of input loop %d)=%v, model %v; %s", i, g, w.Inside, desc)
+				}
+			}
+		}
+	}
 	if o.nontrivial {
 		o.sample = map[string]any{"op": "c07forest", "code": c.Code, "n": c.N, "real": c.Real, "loops": c07Desc(c07Region{Loops: c.Loops})}
 	}
